@@ -32,7 +32,7 @@ def gen_probe(h, rng, k):
     spec['once'] = False
     spec['retention'] = 0
     members = drv.cell.members()
-    mode = rng.choice(['free', 'free', 'free-1', 'free+1', 'small', 'clone', 'clone'])
+    mode = rng.choice(['free', 'free', 'free-1', 'free+1', 'small', 'clone', 'clone', 'clone-min', 'clone-min'])
     cands = [s for s in sorted(H.servers) if H.servers[s]['label'] == label]
     if mode.startswith('free') and cands:
         s = rng.choice(cands)
@@ -60,6 +60,22 @@ def gen_probe(h, rng, k):
                 spec['demand'] = [x + rng.choice([0, 0, 1]) for x in src['demand']]
             if rng.random() < 0.5:
                 spec['traits'] = 0
+    elif mode == 'clone-min':
+        # demand at (or just above) the component-wise minimum of the pending
+        # instances sharing one shape: the probe is comparable with none of
+        # them unless it is >= all recorded failures
+        shapes = {}
+        for nme, a in drv.cell.apps.items():
+            ha = H.apps[nme]
+            if a.server is None and ha['alloc'][0] == label and not ha['blacklisted']:
+                shapes.setdefault((ha['affinity'], ha['lease'], ha['traits'] | H.allocs[oracles.tuple_key(ha['alloc'])]['traits']), []).append(ha)
+        multi = [k for k, v in sorted(shapes.items()) if len(v) >= 2]
+        if multi:
+            key = rng.choice(multi)
+            grp = shapes[key]
+            dmin = [min(a['demand'][i] for a in grp) for i in range(3)]
+            spec.update(affinity=key[0], limits=dict(grp[0]['limits']), lease=key[1], traits=key[2],
+                        demand=[x + rng.choice([0, 0, 1]) for x in dmin])
     if rng.random() < 0.6:
         spec['group'] = None
     spec['priority'] = rng.choice([1, 10, 50, 100])
